@@ -19,7 +19,7 @@ LEVEL_TEXT = ("Machine-checked proof, for every interleaving of route updates, u
               "active cluster is exactly (1 if the current config selector names it) + (uncommitted RPCs routed to it), and that an "
               "RPC's reference is released at most once; machine-checked COUNTEREXAMPLES (replayed on the real resolver) showing that "
               "the unchanged code can lose the cluster from the XDSConfig while an RPC is uncommitted and can keep an unreferenced "
-              "cluster in the service config (finding F20; a second, transient loss through a stale queued snapshot is F21), with clause 3 "
+              "cluster in the service config (finding F36; a second, transient loss through a stale queued snapshot is F37), with clause 3 "
               "proved for every run in which no clusterInfo with a used unsubscribe is re-referenced.")
 LEVEL_NOTE = ("Trusted: Lean kernel; the model's reading of xdsdepmgr (static/dynamic reference counts, one Update per change, all "
               "CDS/EDS resources available at once); sync.OnceFunc; the callback serializer is FIFO. 'Its load balancer stays alive' is "
